@@ -116,7 +116,7 @@ PROPS = {
         rules=["NoPanic", "ReplyUpper", "ReplyLower", "ReplyAddl", "ReplyMeta", "ReplyNone", "E2EReplied"],
     ),
     "C20": dict(
-        mc=["MC_Store", "MC_Discovery", "MC_DiscoveryAsync", "MC_DiscoveryLossy"],
+        mc=["MC_Store", "MC_Discovery", "MC_DiscoveryAsync", "MC_DiscoveryLossy", "MC_DiscoveryLive"],
         never_ok=["RemoveAsync", "Advertise", "Drop", "Remove"],
         runs=[dict(topic="store", shards=14,
                    gen=[dict(module="Gen_Store", cfg="Gen_Store_expiry.cfg", out="store_cases.ndjson",
@@ -134,7 +134,7 @@ PROPS = {
         shards=14,
     ),
     "C15": dict(
-        mc=["MC_Mdns", "MC_Discovery", "MC_DiscoveryAsync", "MC_DiscoveryLossy"],
+        mc=["MC_Mdns", "MC_Discovery", "MC_DiscoveryAsync", "MC_DiscoveryLossy", "MC_DiscoveryLive"],
         never_ok=["RemoveAsync", "Advertise", "Drop", "Remove"],   # each flavour / the lossy network has its own configuration
         runs=[dict(topic="discover", shards=12,
                    gen=[dict(module="Gen_Discover", cfg="Gen_Discover.cfg", out="discover_cases.ndjson",
@@ -431,7 +431,7 @@ EXTRA = {
     "C10": "Also: for every name-bearing type a third-party pointer-compressed encoding (the parsed result must equal the reference decoding), three- and four-window NSEC orderings among the rule-breaking encodings, and random sequences of the typed SvcParam setters of SVCB/HTTPS (set_port, set_alpn, set_no_default_alpn, set_ipv4hint, set_ipv6hint, set_mandatory, set_param): iter_params, get_param and the built record must show the RFC 9460 section 7 values computed in the specification (SvcbSetters).",
     "C13": "Sampled on real sockets (RespRun): the real SimpleMdnsResponder (sync and tokio) serving seven records answers twelve queries (QU / non-QU, one and two questions, ANY / SRV / TXT / A / AAAA, classes IN / CH / ANY, a name nobody owns) sent over the loopback multicast group; every reply seen at a plain socket (unicast) or at a socket joined to the group (multicast) must satisfy the reply bounds, carry the query id and QR, and have gone to the querier iff some question asked for unicast; a query that must be answered must be seen answered in at least one of the attempts (E2EReplied). In addition to the random histories, a bounded-exhaustive matrix: every record of the catalogue (incl. MB/MG/MR/MX/MINFO) registered alone x every supported QTYPE and IXFR/AXFR/MAILB/MAILA/ANY x QCLASS {IN, CH, ANY}, asked at the record's own name and at its parent.",
     "C14": "The discovery-listener pipeline runs without a notification channel, with a live one (drained by the application) and with one whose receiver was dropped, sync and tokio; the usability probe after every datagram does what get_known_services() does (from_records over the cached records); hostile labels cover every alignment of character boundaries (0..3 ASCII bytes followed by invalid, 2-byte and 4-byte units). Sampled on real sockets (NetRun): sync and tokio responder and discovery services answer a probe before the hostile burst and must still answer after it (a fresh control responder tells a dead loop from a dead network); the one-shot resolver keeps resolving (an answered name, an unanswered name, address-and-port of an unanswered service) during the whole burst, which includes responses with id 0 owned by the names it asks for with empty, truncated and mistyped RDATA; any panic on a library thread is a violation.",
-    "C15": "Protocol level: Discovery.tla (one action per implementation step of ServiceDiscovery, sync and tokio flavours; MC_Discovery, MC_DiscoveryAsync, MC_DiscoveryLossy) model-checks NeverPartial, NothingForeign, Prompt and Stable. Sampled on real sockets (E2E): 2-3 real ServiceDiscovery peers (sync, then tokio) advertise random instances of a unique service on the loopback multicast group; every sample of every peer's get_known_services() must consist of exactly the instances other running peers advertise (DiscoverExact, every observation), and within two seconds every running peer must list every other one and keep doing so after a third one left, in at least one of the attempts (E2EDiscovered).",
+    "C15": "Protocol level: Discovery.tla (one action per implementation step of ServiceDiscovery, sync and tokio flavours; MC_Discovery, MC_DiscoveryAsync, MC_DiscoveryLossy; MC_DiscoveryLive checks the temporal properties EventuallyKnown / EventuallyForgotten under fairness) model-checks NeverPartial, NothingForeign, Prompt and Stable. Sampled on real sockets (E2E): 2-3 real ServiceDiscovery peers (sync, then tokio) advertise random instances of a unique service on the loopback multicast group; every sample of every peer's get_known_services() must consist of exactly the instances other running peers advertise (DiscoverExact, every observation), and within two seconds every running peer must list every other one and keep doing so after a third one left, in at least one of the attempts (E2EDiscovered).",
     "C09": "The EDNS data and the 12-bit response code must also survive the compressing serialiser: the reference decoder applied to build_bytes_vec_compressed of every OPT-carrying packet of the builder machine finds the same OPT data and rcode (CompOpt), whatever else the message holds (e.g. a non-empty authority section). The builder histories of Gen_Packet (starting from constructors and from received messages with and without OPT, then SetRcode / SetOpt / ClearOpt / flags) are replayed here too: the state after every call matches the builder model (ApiStep) and what is finally written parses back to the packet the history describes (RoundTrip) -- the response code is split from what the packet holds now, not from what was received.",
     "C17": "The alphabet includes space and newline (whitespace at the ends of a text must not be trimmed away).",
     "C18": "Opaque records are tried with five payloads (arbitrary bytes and bytes shaped like a character-string, a name, an address); a message whose record of an unknown type the library rejects is itself reported.",
